@@ -4,6 +4,7 @@ Enumerates the acyclic CFG paths of a function (loop bodies at most once; variab
 inside a loop are havocked to fresh atoms `name~` at the loop head) and evaluates assignments
 into an environment of Terms.  No feasibility reasoning: every syntactic path is kept."""
 import ast
+from .loader import clone as _ast_clone
 
 from .loader import AnalysisError, dotted, where
 from .terms import Evaluator, Term
@@ -85,7 +86,7 @@ def run_paths(ctx, fn, env0=None, this_names=("this",), include_exc=False, limit
         def folder(node):
             if any(isinstance(n, ast.Name) and n.id in _blocked for n in ast.walk(node)):
                 raise ValueError("mentions a variable")
-            return ctx.folder.ev(_Inline(_defs).visit(_copy.deepcopy(node)), mod)
+            return ctx.folder.ev(_Inline(_defs).visit(_ast_clone(node)), mod)
 
         folder.smart = True
 
